@@ -503,6 +503,12 @@ func scan(f *fn, consts map[string]bool, canNil map[string]bool) []Site {
 			} else if strings.HasPrefix(name, "Must") {
 				add(x, "must-call")
 			}
+			// gas accounting in code that runs in Begin/EndBlock (proposal handlers, InitGenesis, upgrade handlers): a finite block
+			// gas meter (consensus max_gas > 0) or ctx gas meter panics with ErrorOutOfGas on overflow, which only runTx recovers.
+			// (KVStore access charged by the sdk's own gas-kv store is the sdk's and not listed.)
+			if name == "ConsumeGas" || name == "BlockGasMeter" || name == "RefundGas" {
+				add(x, "gas-meter-consumption-outside-tx")
+			}
 			if sel, ok := x.Fun.(*ast.SelectorExpr); ok {
 				if inner, ok := sel.X.(*ast.CallExpr); ok && canNil[calleeName(inner)] {
 					add(x, "nil-method")
